@@ -315,6 +315,10 @@ class VectorHyperDual:
         if isinstance(other, numeric):
             new = self.copy()
             new._val *= float(other)
+            if new._first_der is not None:
+                new._first_der = new._first_der * float(other)
+            if new._second_der is not None:
+                new._second_der = new._second_der * float(other)
             return new
 
         # Product rule for derivatives, Eqn (24) in ref. [1]
